@@ -221,26 +221,56 @@ def channel {α} (k : Nat) (px : List (List α)) : Except ErrKind (List α) :=
     | some v => .ok v
     | none => .error .index) px
 
-/-- stretch binary values to the fractional range: `segment_array * max_fractional_value`, skipped when it is 1 -/
-def stretch (t : SegType) (mfv : Nat) (b : List Nat) : List Nat :=
-  if t = .fractional ∧ mfv ≠ 1 then b.map (· * mfv) else b
+/-- BitsAllocated: 1 / 8 / the width of the *translated* `_get_unsigned_dtype(max segment number)` (T8);
+    "Too many segments to represent with a 16 bit integer" when that is uint32 -/
+def bitsFor (t : SegType) (segs : List Nat) : Except ErrKind Nat :=
+  match t with
+  | .binary => .ok 1
+  | .fractional => .ok 8
+  | .labelmap =>
+    match unsignedDtype (listMax segs) with
+    | .error e => .error e
+    | .ok b => if b = 32 then .error .value else if b < 0 then .error .other else .ok b.toNat
 
-/-- `_get_segment_pixel_array`: the stored pixels of segment `s` in one plane -/
-def segPlane (segs : List Nat) (t : SegType) (mfv : Nat) (s : Nat) : Plane → Except ErrKind (List Nat)
+/-- `astype(uintN)` of a non-negative integer: NumPy wraps around silently -/
+def wrap (bits v : Nat) : Nat := v % 2 ^ bits
+
+/-- width of `dtype`, the pixel type the constructor casts to: uint8 for BINARY and FRACTIONAL, the LABELMAP
+    bit depth otherwise -/
+def outBits (t : SegType) (segs : List Nat) : Except ErrKind Nat :=
+  match t with
+  | .labelmap => bitsFor .labelmap segs
+  | _ => .ok 8
+
+/-- stretch binary values to the fractional range: `segment_array * int(max_fractional_value)` in the array's own
+    (output) pixel type, skipped when the factor is 1 -/
+def stretch (t : SegType) (mfv w : Nat) (b : List Nat) : List Nat :=
+  if t = .fractional ∧ mfv ≠ 1 then b.map (fun v => wrap w (v * mfv)) else b
+
+/-- `_get_segment_pixel_array`: the stored pixels of segment `s` in one plane.  Every `astype(dtype)` of the source
+    is a `wrap` here, at the place where the source has it: **after** the comparison with the segment number for
+    label-map style input (`(pixel_array == segment_number).astype(dtype)`), after channel selection for stacks,
+    after `np.around` for fractions (the list of cast sites is pinned by translation target T21). -/
+def segPlane (segs : List Nat) (t : SegType) (mfv : Nat) (s : Nat) (pl : Plane) : Except ErrKind (List Nat) := do
+  let w ← outBits t segs
+  match pl with
   | .fltStack px => do
       let a ← channel (s - 1) px
-      pure (a.map (quantise mfv))
-  | .fltLabel px => .ok (px.map (quantise mfv))
+      pure (a.map fun x => wrap w (quantise mfv x))
+  | .fltLabel px => pure (px.map fun x => wrap w (quantise mfv x))
   | .intLabel px =>
-      let b := if segs = [1] then px else px.map (fun v => if v = s then 1 else 0)
-      .ok (stretch t mfv b)
+      let b := if segs = [1] then px.map (wrap w) else px.map (fun v => wrap w (if v = s then 1 else 0))
+      pure (stretch t mfv w b)
   | .intStack px => do
       let b ← channel (s - 1) px
-      pure (stretch t mfv b)
+      pure (stretch t mfv w (b.map (wrap w)))
 
-/-- stored pixels of a whole LABELMAP plane (no per-segment extraction) -/
-def labelPlane : Plane → Except ErrKind (List Nat)
-  | .intLabel px => .ok px
+/-- stored pixels of a whole LABELMAP plane (no per-segment extraction): `pixel_array.astype(dtype)`; the cast of
+    the whole array commutes with taking a plane, so it is modelled here -/
+def labelPlane (segs : List Nat) : Plane → Except ErrKind (List Nat)
+  | .intLabel px => do
+      let w ← outBits .labelmap segs
+      pure (px.map (wrap w))
   | _ => .error .other      -- unreachable after `castMask … .labelmap`; refused rather than defaulted
 
 /-! ## the frame loop -/
@@ -273,7 +303,7 @@ def loopBody (arr : Mask) (segs : List Nat) (t : SegType) (mfv : Nat) (omt : Boo
   | some pl =>
     match seg with
     | none => do
-      let px ← labelPlane pl
+      let px ← labelPlane segs pl
       pure (some ⟨none, p, px⟩)
     | some s => do
       let px ← segPlane segs t mfv s pl
@@ -349,17 +379,6 @@ structure SegObj where
   keys : List (Option Nat × Nat)     -- per-frame functional groups: (segment, source plane), frame order
   pd : PixelData
   deriving Repr, Inhabited
-
-/-- BitsAllocated: 1 / 8 / the width of the *translated* `_get_unsigned_dtype(max segment number)` (T8);
-    "Too many segments to represent with a 16 bit integer" when that is uint32 -/
-def bitsFor (t : SegType) (segs : List Nat) : Except ErrKind Nat :=
-  match t with
-  | .binary => .ok 1
-  | .fractional => .ok 8
-  | .labelmap =>
-    match unsignedDtype (listMax segs) with
-    | .error e => .error e
-    | .ok b => if b = 32 then .error .value else if b < 0 then .error .other else .ok b.toNat
 
 def encodePixelData (codec : Option Codec) (rows cols bits : Nat) (frames : List (List Nat)) :
     Except ErrKind PixelData :=
